@@ -133,3 +133,20 @@ Proof.
                      (enumerate (r_outcomes (resolve inp s)))) as [|v0 vs] eqn:E; [destruct Hin|].
   eexists. split; [reflexivity|]. exists cs. exact Hin.
 Qed.
+
+(* ---- an entry that means nothing conflicts with nothing ----
+   fetch_single_imported_audit rewrites a peer entry whose criteria are all unmapped to `criteria = []` (violations are kept
+   whatever they say): such a violation names no criterion, so it conflicts with no audit and no exemption *)
+Lemma flat_map_all_nil {A B} (f : A -> list B) l : (forall x, In x l -> f x = []) -> flat_map f l = [].
+Proof. induction l as [|x l IH]; intros H; cbn; [reflexivity|]. rewrite (H x (or_introl eq_refl)), IH; auto. intros y Hy. apply H. right. exact Hy. Qed.
+
+Theorem violations_without_criteria_conflict_with_nothing t s :
+  (forall src o a r, In (src, o, a) (all_audits s) -> au_kind a = KViolation r -> au_crit a = []) ->
+  violation_conflicts t s = [].
+Proof.
+  intros H. unfold violation_conflicts. apply flat_map_all_nil. intros [[vsrc vo] va] Hin.
+  destruct (au_kind va) as [v|f v|r] eqn:K; try reflexivity.
+  rewrite (H _ _ _ _ Hin K). cbn [map existsb]. cbn [andb].
+  rewrite flat_map_all_nil; [|intros [xi x] _; reflexivity].
+  rewrite flat_map_all_nil; [reflexivity|intros [[asrc ao] a] _; reflexivity].
+Qed.
